@@ -15,7 +15,8 @@ TECHNIQUE = 'exhaustive crash-point enumeration: every cut offset of every file 
 LEVEL_TEXT = ('For each file of the family (contiguous / interleaved / DAQmx with 1-2 buffers; 1-3 segments incl. metadata-less '
               'and inherited encodings; 1-3 chunks; fixed-width, timestamp, string, complex; both byte orders) every cut offset '
               '4..len is applied, with explicit next-segment offset and with the 0xFFFFFFFFFFFFFFFF marker, and the truncated '
-              'bytes are read eagerly and lazily.')
+              'bytes are read eagerly and lazily. Plus: two-chunk files of every chunk length 4..128 (both layouts), every cut of the '
+              'raw data.')
 LEVEL_NOTE = ('Oracle from the independent layout map: no exception; each channel is a bit-exact prefix of its complete values and '
               'holds at least all values of segments ending at or before the cut; len(channel) = values returned; lazy = eager; '
               'incomplete_final_segment iff data_start < cut < segment_end (cut == data_start is a do not care; with the marker only '
